@@ -262,8 +262,19 @@ def run_case(ctx, kind, rng, idx):
     # constructor-argument plumbing)
     if sliding and idx % 4 == 0:
         try:
-            m = MSM(lag_time=lag, method=builders.normalize,
-                    max_n_states=n_states)
+            if rng.random() < 0.3:
+                # constructed with other settings, then re-configured through
+                # its public attributes (a lag-time scan reusing one object)
+                m = MSM(lag_time=lag + 1 + int(rng.integers(0, 3)),
+                        method=builders.normalize, max_n_states=None,
+                        sliding_window=False)
+                m.lag_time = lag
+                m.max_n_states = n_states
+                m.sliding_window = True
+                ctx.count('msm_reconfigured')
+            else:
+                m = MSM(lag_time=lag, method=builders.normalize,
+                        max_n_states=n_states)
             if rng.random() < 0.5:
                 # the estimator has been fitted before, on other data with
                 # another number of states: nothing of that may carry over
